@@ -4,11 +4,12 @@
 typedef char *P;
 #define POOLW 4096
 static P pool__[POOLW]; static uint64_t pool_top__;
-P _Znwm(uint64_t n){ uint64_t w = (n + 7) / 8; if(!w) w = 1; __CPROVER_assert(pool_top__ + w <= POOLW, "verif heap pool exhausted"); P p = (P)&pool__[pool_top__]; pool_top__ += w; return p; }
+extern unsigned int verif_rt_section;
+P _Znwm(uint64_t n){ __CPROVER_assert(!verif_rt_section, "C03 heap allocation (operator new) inside the realtime section"); uint64_t w = (n + 7) / 8; if(!w) w = 1; __CPROVER_assert(pool_top__ + w <= POOLW, "verif heap pool exhausted"); P p = (P)&pool__[pool_top__]; pool_top__ += w; return p; }
 P _Znam(uint64_t n){ return _Znwm(n); }
-void _ZdlPv(P p){ }
-void _ZdaPv(P p){ }
-void _ZdlPvm(P p, uint64_t n){ }
+void _ZdlPv(P p){ __CPROVER_assert(!verif_rt_section, "C03 heap deallocation (operator delete) inside the realtime section"); }
+void _ZdaPv(P p){ __CPROVER_assert(!verif_rt_section, "C03 heap deallocation (operator delete[]) inside the realtime section"); }
+void _ZdlPvm(P p, uint64_t n){ __CPROVER_assert(!verif_rt_section, "C03 heap deallocation (sized operator delete) inside the realtime section"); }
 uint32_t __cxa_atexit(P a, P b, P c){ return 0; }
 uint32_t __cxa_guard_acquire(P g){ return *g == 0; }
 void __cxa_guard_release(P g){ *g = 1; }
